@@ -65,6 +65,12 @@ def layouts(tier, seed, salt):
     add(8, 3, 0, [{"w": 24, "acc": "rw", "addr": 1}, {"w": 24, "acc": "rw", "addr": 4}])
     add(8, 5, 0, [{"w": 24, "acc": "rw", "addr": 3}, {"w": 40, "acc": "rw", "addr": 9} if max_chunks >= 5 else {"w": 24, "acc": "r", "addr": 9},
                   {"w": 8, "acc": "rw", "addr": 1}])
+    # larger geometries (wide bus, high addresses, long registers) - few, in both tiers
+    add(32, 6, 0, [{"w": 33, "acc": "rw", "addr": 40}, {"w": 96, "acc": "rw", "addr": 57}, {"w": 1, "acc": "w", "addr": 63}], ovs=[None, 0])
+    add(64, 4, 1, [{"w": 65, "acc": "rw"}, {"w": 64, "acc": "r"}, {"w": 130, "acc": "rw", "addr": 12}], ovs=[None, 1])
+    add(8, 8, 0, [{"w": 24, "acc": "rw", "addr": 201}, {"w": 8, "acc": "rw", "addr": 255}, {"w": 16, "acc": "rw", "addr": 127}], ovs=[None, 0])
+    if max_chunks >= 6:
+        add(8, 6, 0, [{"w": 48, "acc": "rw", "addr": 5}, {"w": 40, "acc": "rw", "addr": 13}, {"w": 8, "acc": "rw", "addr": 4}])
     want = 120 if tier == "quick" else 1000
     widths = lambda dw: [0, 1, dw - 1, dw, dw + 1, 2 * dw, 2 * dw + 3, 3 * dw, 4 * dw] + \
         ([5 * dw + 1, 6 * dw] if tier == "thorough" else [])
